@@ -11,6 +11,7 @@ from harness import checklib  # noqa: E402
 
 def run(c):
     observer_design.run_design(c, "C05")
+    observer_design.run_replay(c, "C05")
     b = 2 if c.thorough else 1
     fams = [("removal", oe.fam_removal() + oe.fam_reentrant_unschedule(), b)]
     oe.run_families(c, "C05", fams, bound=b, random_n=3000 if c.thorough else 300)
